@@ -404,6 +404,9 @@ func genPool(h *rt.H, w int) []string {
 	set := map[string]bool{}
 	var pool []string
 	n := 3 + h.Intn(10)
+	if h.Intn(5) == 0 {
+		n += 10 + h.Intn(15)
+	}
 	for len(pool) < n {
 		s := rt.Pick(h, seeds)
 		var l int
@@ -446,8 +449,20 @@ func genCase(h *rt.H) []string {
 	ops := []string{fmt.Sprintf("new %d", w)}
 	n := 6 + h.Intn(40)
 	val := 0
+	// warm-up: half of the cases start from a populated trie
+	if h.Bool() {
+		for i := 0; i < len(pool)/2+h.Intn(len(pool)); i++ {
+			val++
+			ops = append(ops, fmt.Sprintf("upd %s %d", pick(), val))
+		}
+	}
+	delBias := 14 - 8*h.Intn(2) // some cases delete rarely, so the trie grows
 	for i := 0; i < n; i++ {
-		switch k := h.Intn(100); {
+		k := h.Intn(100)
+		if k >= 26+delBias && k < 40 {
+			k = 0
+		}
+		switch {
 		case k < 26:
 			val++
 			ops = append(ops, fmt.Sprintf("upd %s %d", pick(), val))
@@ -486,7 +501,7 @@ func genCase(h *rt.H) []string {
 func main() {
 	h := rt.New()
 	defer h.Close()
-	h.Rule = "case = one family (v4 60% / v6 40%) + a pool of 3..12 prefixes cut from 1..4 seed addresses sharing a long common part " +
+	h.Rule = "case = one family (v4 60% / v6 40%) + a pool of 3..12 (1 in 5: up to 36) prefixes cut from 1..4 seed addresses sharing a long common part " +
 		"(lengths around 0,8,16,24,32 / 0,48,64,128 and random; 1/12 ops use a fresh neighbour) + 6..45 ops over " +
 		"{upd,del,get,path,lpm,cov,int,cby,desc,cp,has,bit,slice,dump}; non-trivial = the trie held >=3 prefixes with an intermediate node or nesting depth >=2 at some point; distinct = distinct op sequence"
 	run := func(ops []string, tag string) {
